@@ -57,6 +57,19 @@ CLAIMS = {
     design_ref="DESIGN.md §6 C17",
     technique="Lean 4 proof (decision logic of the check, totality of node construction, store model) + differential correspondence per child process incl. a second thread",
     note=NOTE_COMMON + " serde_yaml is trusted for the YAML text. Found and fixed with this check: D9 (configuration was thread_local; fix: commit 2d249fe)."),
+ "C18": dict(
+    category="proof",
+    text=("Part A (derive layer, schema-driven codec over JSON value trees; the five schemas are data: field names, order, types, writable enum variants, defaults): decode_encode (every "
+          "well-typed serialisable field value reads back), rule_roundtrip / all_families_roundtrip (every such rule record parses back to itself, all fields), missing_fields_default (any set of "
+          "fields removed => exactly those fields at their defaults), fromDoc_perm (field order irrelevant), fromDoc_ignores_unknown, duplicate_field_error, wrong_type_error, fromDocs_all (one "
+          "malformed element fails the list), nan_does_not_round_trip / custom_variant_rejected / wrong_types_rejected (why the hypotheses are needed). Part B (MetricItem Display / from_string "
+          "on characters): parseNatB_printNat (decimal print/parse for any bound), splitBar_joinBar, line_roundtrip (every in-range item's line parses back to the item with only the separator "
+          "replaced in the name), sanitize_id, short_lines_rejected. Tie: serde_json::to_value / to_string / from_str::<Vec<Rule>> on generated rules and mutated documents, compared tree for "
+          "tree with the model, incl. the emitted field order; MetricItem lines compared byte for byte; raw and torn lines parsed by both."),
+    design_ref="DESIGN.md §6 C18",
+    technique="Lean 4 proof (codec round-trip, defaulting, order-independence by induction over schemas; decimal and split/join round trips) + differential correspondence on value trees and line bytes",
+    note=NOTE_COMMON + " The JSON text layer (serde_json tokens, escapes, number formatting/parsing) is trusted; truncated / bit-flipped text goes to the real parser only and must not panic (a test). "
+         "rule_json_array_parser is called as serde_json::from_str::<Vec<Rule>> because the datasource features do not build offline."),
  "C08": dict(
     category="translation_validation",
     text=("PARTIAL. Proved in Lean: structural theorems about the executable warm-up calculator for every state/threshold/clock (sync_stored_le_max, sync_once_per_second, sync_idempotent, "
